@@ -1,4 +1,4 @@
 CONSTANTS Which = "yaml"  MaxLen = 12
-SPECIFICATION Spec
+SPECIFICATION SimSpec
 INVARIANT Emit
 CHECK_DEADLOCK FALSE
